@@ -226,6 +226,18 @@ CHECKS = {
    note=TB + 'One location sample per event (shared location-sample sets of co-located events are not modelled); one relative-amplitude phase per case; each event\'s own log-probability enters the model as the value of the single-event forward task (C01). Errors of exactly zero are replaced by 1e-24 in the code and make the ratio density numerically meaningless (only the scale factor is compared there).',
    technique='Lean 4 proof (list induction, permutation lemmas, fold invariant, filter limits) + differential correspondence',
    design='5/C15'),
+ 'C20': dict(
+   text='PARTIAL. The compiled extensions cannot be built here (no Cython). Instead the scalar kernels of the four .pyx sources are translated to Lean '
+        'definitions on every run (harness/gen_pyx.py; 26 kernels translated, the array loops are listed as not translated) and 17 theorems '
+        'over the reals state that they equal the models of the pure-Python paths: Gaussian pdf/cdf (both modules), manual-polarity and '
+        'polarity-probability station likelihoods, the ratio density for modelled amplitudes of either sign, the inverse-variance step, the '
+        'per-station scale estimate, the proposal ratio for full-tensor and double-couple moves (= ratio of the Python transition '
+        'densities), uniform and flat prior ratios, the jump density, lune coordinates, Hudson tau-k and u-v. Tie: regenerated model (the '
+        'theorems are re-checked against what the .pyx says now) + evaluation of every translated kernel at Float against the real Python '
+        'functions (also for cTape_MT6, cN_SDR/csingleSDR_SDR and the dimension-jump prior ratios, which have no theorem).',
+   note=TB + 'Partial: loops over stations / samples / tensors, log-domain reductions, binning, random generators, memory views, OpenMP and the C compiler are not modelled; the translator is trusted; nothing compiled is executed.',
+   technique='source-to-Lean translation of scalar kernels + Lean 4 equality proofs + differential evaluation against the Python paths',
+   design='5/C20'),
 }
 
 NOT_YET = 'check under construction in this session (model/theorems not yet committed)'
